@@ -12,7 +12,9 @@ def controlling_switches(body, bb):
             continue
         if not body.dominates(sb, bb):
             continue
-        if any(bb not in body.reachable(s, avoid=[sb]) for s in body.succ(sb)):
+        # the `otherwise -> unreachable` edge of an exhaustive match is not an alternative
+        succs = [s for s in body.succ(sb) if (body.term(s) or {}).get('k') != 'unreachable' or body.stmts(s)]
+        if any(bb not in body.reachable(s, avoid=[sb]) for s in succs):
             out.append((sb, t))
     return out
 
